@@ -49,7 +49,7 @@ func (c11) Mandatory(tier string) []string {
 	return []string{"region:armor-header", "region:hash-header", "region:body", "region:signature-armor", "region:trailer", "edit:substitute", "edit:delete", "edit:insert", "edit:truncate",
 		"outcome:both-reject", "outcome:both-accept-equal", "untampered-accepted", "splice:foreign-before", "splice:foreign-before-blank", "splice:field-inside", "splice:text-before-signature",
 		"splice:text-after-end", "splice:foreign-block-before", "splice:foreign-block-after", "splice:duplicate-signature", "splice:hash-header", "keyring:signer", "keyring:signer+others",
-		"keyring:others", "keyring:empty", "keyring:nil-list", "entry:ParagraphReader", "entry:Decoder", "sequence:keyring-mutated-between-reads", "unsigned:no-signer", "source:onebyte", "source:chunk7", "source:chunk14", "source:data+EOF", "source:os.Pipe"}
+		"keyring:others", "keyring:empty", "keyring:nil-list", "entry:ParagraphReader", "entry:Decoder", "sequence:keyring-mutated-between-reads", "unsigned:no-signer", "source:onebyte", "source:chunk7", "source:chunk14", "source:data+EOF", "source:os.Pipe", "doc:signed-bytes-are-not-utf8", "doc:signed-line>=64KiB"}
 }
 
 type c11Case struct {
@@ -467,6 +467,17 @@ func (p c11) RunBatch(t *core.T, b core.Batch) {
 		r := t.Rand("keyring", fmt.Sprint(b.Arg))
 		for i := 0; i < b.N; i++ {
 			text := c11Doc(r)
+			switch i % 8 {
+			case 3:
+				// control data older than the UTF-8 convention: ISO-8859-1 bytes, not valid UTF-8; what was signed is
+				// bytes, and bytes must come out
+				text = "Maintainer: Ren\xe9 M\xfcller <rene@example.org>\nComment: Stra\xdfe \xe9\n" + text
+				t.Cover("doc:signed-bytes-are-not-utf8")
+			case 5:
+				// one signed line longer than 64 KiB (a Description or file list pasted into one line)
+				text = "Long: " + r.Str("abcdefgh ijkl-mnop", r.Range(65600, 90000)) + "x\nAfter: kept\n" + text
+				t.Cover("doc:signed-line>=64KiB")
+			}
 			signer := r.Intn(2)
 			doc := clearsignDoc(text, keys[signer])
 			p.emit(t, c11Case{Input: doc, Keyring: serializeKeyring([]*openpgp.Entity{keys[signer]}), Fault: "none"}, "keyring:signer")
